@@ -406,7 +406,8 @@ func VH19c_device() {
 
 var tranAddrs = []string{"tcp://127.0.0.1:5555", "tls+tcp://127.0.0.1:5556", "ws://127.0.0.1:5557/x", "wss://127.0.0.1:5558/x", "inproc://opt", "ipc:///tmp/verif.sock"}
 var tranOpts = []string{mangos.OptionMaxRecvSize, mangos.OptionNoDelay, mangos.OptionKeepAlive, mangos.OptionKeepAliveTime, mangos.OptionTLSConfig,
-	mangos.OptionReconnectTime, mangos.OptionMaxReconnectTime, mangos.OptionDialAsynch, mangos.OptionLocalAddr, "NO-SUCH-OPTION", mangos.OptionReadQLen}
+	mangos.OptionReconnectTime, mangos.OptionMaxReconnectTime, mangos.OptionDialAsynch, mangos.OptionLocalAddr, "NO-SUCH-OPTION", mangos.OptionReadQLen,
+	"UNIX-IPC-CHMOD", "UNIX-IPC-OWNER", "UNIX-IPC-GROUP"}
 
 // VH19d_transports: option contract of the dialers and listeners of every transport.
 func VH19d_transports() {
@@ -443,6 +444,20 @@ func VH19d_transports() {
 	if name == "NO-SUCH-OPTION" {
 		verif.Assert(err == mangos.ErrBadOption, lab+"/unknown-name-is-bad-option")
 		verif.Assert(gerr == mangos.ErrBadOption, lab+"/unknown-name-get-is-bad-option")
+	}
+	if name == "UNIX-IPC-CHMOD" || name == "UNIX-IPC-OWNER" || name == "UNIX-IPC-GROUP" {
+		isIpcListener := ti == 5 && where == "listener"
+		if !isIpcListener {
+			verif.Assert(err == mangos.ErrBadOption, lab+"/ipc-option-accepted-elsewhere")
+		} else if name == "UNIX-IPC-CHMOD" && vt_ == 6 {
+			v := val.(uint32)
+			verif.Assert(verif.Iff(err == nil, v&0777 == v), lab+"/chmod-accepts-exactly-permission-bits")
+			verif.Reach("chmod")
+		} else if name != "UNIX-IPC-CHMOD" && vt_ == 0 {
+			verif.Assert(err == nil, lab+"/owner-or-group-int-rejected")
+		} else {
+			verif.Assert(err == mangos.ErrBadValue, lab+"/wrong-type-not-bad-value")
+		}
 	}
 	if name == mangos.OptionReadQLen {
 		// a socket-level option: an endpoint may pass Get up to its socket, but cannot set it
